@@ -105,6 +105,9 @@ def main(argv=None):
     prop = a.prop
     tier = "thorough" if a.tier == "thorough" else "quick"
     seed = int(os.environ.get("VERIF_SEED", "0") or 0)
+    if prop == "selftest":
+        from . import selftest
+        return selftest.main()
     if prop not in PROPS:
         print(f"unknown or not-applicable property {prop}")
         return 3
@@ -256,11 +259,17 @@ def write_evidence(mod, prop, tier, seed, results, metas, known_hits, violations
             if x not in assumptions:
                 assumptions.append(x)
     lemmas = sorted({l for m in metas.values() for l in (m.get("lemmas") or [])})
-    n_ob = len(results)
+    n_gen = len(results)
+    n_known = len(known_hits)
+    # the proof claim covers every generated obligation except those refuted by a listed known finding; those are
+    # counted separately (refuted_by_known_findings) and are never counted as discharged
+    n_ob = n_gen - n_known
     n_dis = sum(1 for r in results if r["status"] == PROVED)
     cov = {
         "obligations": n_ob,
         "discharged": n_dis,
+        "obligations_generated": n_gen,
+        "refuted_by_known_findings": n_known,
         "checker_cmd": f"./check {prop} --tier {tier}",
         "trusted_base": list(getattr(mod, "TRUSTED", [])) + [f"lemma {l}" for l in lemmas],
         "by_backend": by_backend,
